@@ -118,12 +118,38 @@ def _single_atom(k: str) -> bool:
     return False
 
 
+IMPLIES = {"lt0": ("le0", "ne0"), "gt0": ("ge0", "ne0"), "eq0": ("le0", "ge0")}
+
+
+def minimal_guards(guards) -> List[str]:
+    """The guards without those implied by another guard on the same expression (x < 0 implies x <= 0 and x != 0; x == 0 implies x >= 0, x <= 0):
+    an `elif` or a nested test adds such redundant facts without changing when the statement runs."""
+    gs = list(dict.fromkeys(guards))
+    drop = set()
+    for g in gs:
+        if not _single_atom(g):
+            continue
+        tag, rest = g.split("[", 1)
+        for weaker in IMPLIES.get(tag, ()):
+            w = f"{weaker}[{rest}"
+            if w in gs:
+                drop.add(w)
+            # the same fact written on the negated expression: -x > 0 ... (not attempted)
+    return [g for g in gs if g not in drop]
+
+
 def canon_quant(k: str) -> str:
     """`all[P]` over one comparison atom is written `not[any[not P]]` so that `(x == nd).all()` and `(x != nd).any()` meet in one form."""
     if k.startswith("all[") and k.endswith("]") and _single_atom(k):
         inner = k[4:-1]
         if _single_atom(inner) and inner.split("[", 1)[0] in NEG:
             return f"not[any[{negate_key(inner)}]]"
+    # a count of a comparison mask compared with zero: `(m).sum() == 0` is `not m.any()`, `(m).sum() > 0` is `m.any()`
+    for tag, form in (("eq0[sum[", "not[any[{}]]"), ("gt0[sum[", "any[{}]"), ("ne0[sum[", "any[{}]"), ("le0[sum[", "not[any[{}]]")):
+        if k.startswith(tag) and k.endswith("]]") and _single_atom(k):
+            inner = k[len(tag):-2]
+            if _single_atom(inner) and inner.split("[", 1)[0] in NEG:
+                return form.format(inner)
     return k
 
 
